@@ -8,6 +8,8 @@ from .common import corpus_lines, dec_text, enc, exc_name
 
 PROPERTY = "C03"
 LEAN_MODULES = ["BaizeVerif.Props.C03"]
+MODEL_MODULES = ["BaizeVerif.Model.Range"]
+DRIVER_OPS = {"parse_range": "Range.run"}
 THEOREMS = [
     "Baize.Range.accepted_canonical",
     "Baize.Range.accepted_exact",
@@ -17,6 +19,18 @@ THEOREMS = [
     "Baize.Range.parseRange_sound",
     "Baize.Range.source_pinned",
 ]
+MANIFEST = {
+    "technique": "Lean 4 proof (induction over the spec list) + differential correspondence of the Lean model "
+                 "with parse_range",
+    "text": "Lean theorems over an executable model of parse_range (canonical form, exact cover, exact 400/416 "
+            "characterisation, order independence, for every size and every list of specs); the model is tied to "
+            "/repo on every run by regenerated constants and by a differential correspondence (exhaustive small "
+            "range sets + random + mutated headers) against the real function; an independent oracle states the "
+            "property on the implementation's outputs.",
+    "note": "Trusted: Lean kernel (propext, Classical.choice, Quot.sound only), tools/extract.py, the "
+            "correspondence generator; CPython re/int/sorted behave as sampled. Header text is Latin-1.",
+    "design": "C03",
+}
 CORRESPONDENCE = "Baize.Range.parseRange  vs  baize.responses.FileResponseMixin.parse_range"
 RULE = ("corpus of past failures; exhaustive range sets with <=2 (quick) / <=3 (thorough) specs over a "
         "small number domain x sizes {0,1,5,10}; random 1-12 spec sets with overlapping/nested/adjacent "
